@@ -139,17 +139,30 @@ def unroll(prog):
 
 @st.composite
 def link_case(draw):
-    prog = draw(gen.program_st(max_files=3, decoys=False, const_addr=True, skip=True, base_forms=["none", "link", "dot", "link-late"]))
+    # one program in four: a single file exports, and it does so through '.extern all' (literal concatenation of files is only
+    # meaningful then: '.extern all' next to '::' of the same file is a duplicate export)
+    exporter = draw(st.sampled_from([None, None, None, 0, 1, 2]))
+    prog = draw(gen.program_st(max_files=3, decoys=False, const_addr=True, skip=True, base_forms=["none", "link", "dot", "link-late"], exporter=exporter))
     # every file starts with an ordinary label (local-label scopes must not merge)
     for i, path in enumerate(prog["mains"]):
         body = prog["files"][path]
         at = 1 if body and body[0]["k"] == "link" else 0
         body.insert(at, {"k": "label", "name": gen.names("sf" + "abc"[i], 1)[0]})
+    extern_all = 0
+    for fi, path in enumerate(prog["mains"]):
+        if len(prog["mains"]) > 1 and exporter is not None and exporter % len(prog["mains"]) == fi:
+            # this file exports through '.extern all' (placed before, between or after its definitions) instead of '::' / '=='
+            body = [dict(s_, export=False) if s_.get("export") else s_ for s_ in prog["files"][path]]
+            lo = 1 if body and body[0]["k"] == "link" else 0
+            top = [i for i in range(lo, len(body) + 1)]
+            body.insert(draw(st.sampled_from([lo, lo, len(body)] + top)), {"k": "extern", "names": "all"})
+            prog["files"][path] = body
+            extern_all += 1
     cat = []
     for path in prog["mains"]:
         cat += prog["files"][path]
     one = {"files": {"cat.mac": cat}, "blobs": {}, "mains": ["cat.mac"], "charset": "bk"}
-    return prog, one, {"files": len(prog["mains"])}
+    return prog, one, {"files": len(prog["mains"]), "extern_all": extern_all}
 
 
 # ---------------------------------------------------------------------------
@@ -173,10 +186,24 @@ def insert_case(draw):
         tail = [{"k": "even"}] if len(data) % 2 or pad else []
         body[pos:pos] = [{"k": "insert", "path": path}] + tail
         body2[pos:pos] = ([{"k": "data", "d": "byte", "es": [("num", b) for b in data]}] if data else []) + tail
-    prog = dict(prog, files={prog["mains"][0]: body})
-    a = dict(prog, blobs=blobs)
-    b = dict(prog, files={prog["mains"][0]: body2}, blobs={})
-    return a, b, {"bytes": sum(len(v) for v in blobs.values())}
+    files_a = {prog["mains"][0]: body}
+    files_b = {prog["mains"][0]: body2}
+    samename = False
+    if draw(st.integers(0, 2)) == 0:
+        # an included file of another directory inserts a file of the same relative name (it is a different file)
+        samename = True
+        other = draw(st.binary(min_size=1, max_size=40))
+        blobs["sub/bin/b0.dat"] = other
+        tail = [{"k": "even"}] if len(other) % 2 else []
+        files_a["sub/inc.mac"] = [{"k": "insert", "path": "bin/b0.dat"}] + tail
+        files_b["sub/inc.mac"] = [{"k": "data", "d": "byte", "es": [("num", x) for x in other]}] + tail
+        pos = draw(st.sampled_from(gen.even_points(body2)))
+        # same statement index in both bodies only if computed per body: use the end of the file (even by construction)
+        body.append({"k": "include", "path": "sub/inc.mac"})
+        body2.append({"k": "include", "path": "sub/inc.mac"})
+    a = dict(prog, files=files_a, blobs=blobs)
+    b = dict(prog, files=files_b, blobs={})
+    return a, b, {"bytes": sum(len(v) for v in blobs.values()), "samename": samename}
 
 
 JUNK = ["this is not assembly at all ))) ((", "\tmov r0,\n\t\"unterminated", "label: .word 1, 2\n\t.error stop", "\t.include \"nowhere.mac\"", "%%% ^^^ <<<",
@@ -309,9 +336,13 @@ def run_shard(spec, ctx):
             labels += [f"n-{min(meta['n'], 6)}{'+' if meta['n'] >= 6 else ''}", "late-count" if meta["late"] else "literal-count"] + (["hoist-or-fixup"] if hoist else [])
         elif sub == "link":
             labels.append(f"files-{meta['files']}")
+            if meta.get("extern_all"):
+                labels.append("link-extern-all")
             nt = meta["files"] >= 2
         elif sub == "insert":
             labels.append("empty-blob" if meta["bytes"] == 0 else "blob")
+            if meta.get("samename"):
+                labels.append("insert-same-name-other-directory")
         elif sub == "end":
             labels.append("end-in-" + meta["where"])
         elif sub == "once":
